@@ -106,6 +106,13 @@ fn make_case(stream: &[u32]) -> Option<Case> {
     }
     let crlf = src.chance(35);
     let commented = src.chance(40);
+    // the input may begin with blank lines and indentation (as a file often does)
+    let lead: String = if src.chance(30) {
+        let nl = if crlf { "\r\n" } else { "\n" };
+        format!("{}{}", nl.repeat(1 + src.pick(3)), ["", "  ", "\t"][src.pick(3)])
+    } else {
+        String::new()
+    };
     // choose the corruption on the token list, then lay out
     let n = toks.len();
     let ti = src.pick(n);
@@ -149,6 +156,7 @@ fn make_case(stream: &[u32]) -> Option<Case> {
         return None;
     }
     let (text, offs) = layout(&mutated, &mut src, crlf, commented);
+    let (text, offs) = (format!("{lead}{text}"), offs.into_iter().map(|o| o + lead.len()).collect::<Vec<usize>>());
     // the corrupted unit: the assignment (or header) owning token ti; its first token
     let t_ref = ti.min(mutated.len() - 1);
     let owner = (mutated[t_ref].module, mutated[t_ref].item);
